@@ -280,6 +280,28 @@ func runC16(c *Ctx) {
 		c.wireLengthTaint(fn, buf, isDecoder)
 		c.decoderExits(fn, buf, isDecoder)
 	}
+	// helpers of other repository packages the decoders call (zero-copy casts, copies): the same guard rule
+	seenHelper := map[*ssa.Function]bool{}
+	for _, fn := range decoders {
+		for _, call := range ir.Calls(fn) {
+			cal := ir.StaticCallee(call)
+			if cal == nil || len(cal.Blocks) == 0 || isDecoder[cal] || seenHelper[cal] || cal.Pkg == nil || !strings.HasPrefix(cal.Pkg.Pkg.Path(), ir.Module+"/") {
+				continue
+			}
+			if cal.Pkg == c.P.SSAPkg("xbinary") {
+				continue
+			}
+			seenHelper[cal] = true
+			c.Saw(cal)
+			for _, prm := range cal.Params {
+				if _, isSlice := prm.Type().Underlying().(*types.Slice); isSlice {
+					c.fixedWidthAccess("C16.R1", cal, prm)
+				}
+			}
+			// a helper without indexed access is fine
+			c.Decide("C16.R1", cal, "helper called with decoded data analysed", nil, true, "")
+		}
+	}
 	c.R.Floor("C16.R1", 4)
 	c.R.Floor("C16.R2", 1)
 	c.R.Floor("C16.R3", 1)
@@ -469,6 +491,7 @@ func (c *Ctx) wireLengthTaint(fn *ssa.Function, buf ssa.Value, isDecoder map[*ss
 			check(in, "slice bound", x.Low)
 			check(in, "slice bound", x.High)
 			check(in, "slice bound", x.Max)
+			c.sliceRemaining(fn, x, tainted, buf)
 			// a bound that is arithmetic on tainted values: its operands were checked above
 		case *ssa.IndexAddr:
 			check(in, "index", x.Index)
@@ -764,6 +787,14 @@ func (c *Ctx) sizeTree() {
 		}
 	})
 	if !shapeOK {
+		// not a comparison tree: fall back to an interval analysis of the result. It cannot prove agreement with the
+		// encoder, but a result interval that reaches below 1 or above 10 is a definite disagreement.
+		lo, hi, ok := resultInterval(fn)
+		if ok && (lo < 1 || hi > 10) {
+			c.Decide("C15.S2", fn, "size function result within [1,10]", nil, false,
+				fmt.Sprintf("the size function can return %d..%d: the varint encoder always writes between 1 and 10 bytes (e.g. 1 byte for the value 0)", lo, hi))
+			return
+		}
 		c.Undecided("C15.S2", fn, "size decision tree", nil, "the body is not a comparison tree over the argument: "+why)
 		return
 	}
@@ -1419,6 +1450,46 @@ func (c *Ctx) independentCopy() {
 		}
 		c.Decide("C15.S6", ub, "newBuf edge returns SliceCopy", ret, ok, detail)
 	}
+	// the string form: either it hands its own flag on to UnmarshalBytes, or its newBuf edge converts (copies)
+	us := c.RequireFn(c.P.Func("xbinary", "UnmarshalString"), "UnmarshalString")
+	if len(us.Params) >= 2 {
+		sflag := us.Params[1]
+		delegates := false
+		for _, call := range callsTo(us, ub) {
+			if ir.Resolve(call.Call.Args[1]) == ssa.Value(sflag) {
+				delegates = true
+			}
+		}
+		if delegates {
+			c.Decide("C15.S6", us, "string form hands newBuf on to UnmarshalBytes", nil, true, "")
+		} else {
+			// every success return reachable with newBuf == true must return a converted (copied) string
+			ok := true
+			n := 0
+			for _, ret := range ir.Returns(us) {
+				if ir.ClassifyErr(ir.ResultValue(ret, 2), ret.Block()) == ir.ErrNonNil {
+					continue
+				}
+				falseOnly := ir.HasFact(ret.Block(), func(f ir.Fact) bool { ff := f.StripNot(); return ff.Cond == ssa.Value(sflag) && !ff.True })
+				if falseOnly {
+					continue
+				}
+				n++
+				isCopy := false
+				for _, o := range ir.Origins(ir.ResultValue(ret, 1)) {
+					if cv, isCv := o.(*ssa.Convert); isCv {
+						if _, isSlice := cv.X.Type().Underlying().(*types.Slice); isSlice {
+							isCopy = true
+						}
+					}
+				}
+				if !isCopy {
+					ok = false
+				}
+			}
+			c.Decide("C15.S6", us, "string decoded with newBuf is a copy", nil, ok && n > 0, "UnmarshalString neither passes newBuf on to UnmarshalBytes nor copies on its newBuf edge: with newBuf=true the returned string still aliases the source buffer")
+		}
+	}
 	// SliceCopy returns a made slice filled by copy
 	okMake := false
 	for _, ret := range ir.Returns(sc) {
@@ -1440,5 +1511,187 @@ func (c *Ctx) independentCopy() {
 		}
 	})
 	c.Decide("C15.S6", sc, "SliceCopy returns a fresh made slice", nil, okMake && okCopy, "container.SliceCopy does not return a freshly allocated copy")
-	c.R.Floor("C15.S6", 2)
+	c.R.Floor("C15.S6", 3)
+}
+
+// resultInterval computes an interval for the integer result of fn by abstract interpretation over intervals
+// (no branch refinement): constants, + - * / by constants, bits.Len64 in [0,64], phi = join.
+func resultInterval(fn *ssa.Function) (lo, hi int64, ok bool) {
+	type iv struct {
+		lo, hi int64
+		ok     bool
+	}
+	memo := map[ssa.Value]iv{}
+	var eval func(v ssa.Value, depth int) iv
+	eval = func(v ssa.Value, depth int) iv {
+		if r, done := memo[v]; done {
+			return r
+		}
+		if depth > 20 {
+			return iv{}
+		}
+		memo[v] = iv{} // cycles are unknown
+		var r iv
+		switch x := v.(type) {
+		case *ssa.Const:
+			if k, isC := ir.ConstInt(x); isC {
+				r = iv{k, k, true}
+			}
+		case *ssa.Convert:
+			r = eval(x.X, depth+1)
+		case *ssa.Call:
+			switch ir.CalleeFullName(x) {
+			case "math/bits.Len64", "math/bits.Len":
+				r = iv{0, 64, true}
+			case "math/bits.Len32":
+				r = iv{0, 32, true}
+			case "math/bits.Len16":
+				r = iv{0, 16, true}
+			case "math/bits.Len8":
+				r = iv{0, 8, true}
+			}
+			if b := builtinCall(x, "max"); b != nil && len(b.Args) == 2 {
+				a, c2 := eval(b.Args[0], depth+1), eval(b.Args[1], depth+1)
+				if a.ok && c2.ok {
+					r = iv{maxI(a.lo, c2.lo), maxI(a.hi, c2.hi), true}
+				}
+			}
+		case *ssa.BinOp:
+			a, b := eval(x.X, depth+1), eval(x.Y, depth+1)
+			if !a.ok || !b.ok {
+				break
+			}
+			switch x.Op {
+			case token.ADD:
+				r = iv{a.lo + b.lo, a.hi + b.hi, true}
+			case token.SUB:
+				r = iv{a.lo - b.hi, a.hi - b.lo, true}
+			case token.MUL:
+				if a.lo >= 0 && b.lo >= 0 {
+					r = iv{a.lo * b.lo, a.hi * b.hi, true}
+				}
+			case token.QUO:
+				if b.lo == b.hi && b.lo > 0 && a.lo >= 0 {
+					r = iv{a.lo / b.lo, a.hi / b.lo, true}
+				}
+			}
+		case *ssa.Phi:
+			r = iv{0, 0, true}
+			first := true
+			for _, e := range x.Edges {
+				ev := eval(e, depth+1)
+				if !ev.ok {
+					r = iv{}
+					break
+				}
+				if first {
+					r, first = ev, false
+				} else {
+					r = iv{minI(r.lo, ev.lo), maxI(r.hi, ev.hi), true}
+				}
+			}
+		}
+		memo[v] = r
+		return r
+	}
+	res := iv{0, 0, false}
+	first := true
+	for _, ret := range ir.Returns(fn) {
+		ev := eval(ret.Results[0], 0)
+		if !ev.ok {
+			return 0, 0, false
+		}
+		if first {
+			res, first = ev, false
+		} else {
+			res = iv{minI(res.lo, ev.lo), maxI(res.hi, ev.hi), true}
+		}
+	}
+	return res.lo, res.hi, res.ok
+}
+
+func minI(a, b int64) int64 {
+	if a < b {
+		return a
+	}
+	return b
+}
+
+func maxI(a, b int64) int64 {
+	if a > b {
+		return a
+	}
+	return b
+}
+
+// sliceRemaining is the second half of C16.R3: when input is cut as X[lo:hi] with hi = t or hi = lo + t for a wire
+// length t, the guard that bounds t must compare it with what remains of X: len(X)-lo (or len(X) when lo is absent).
+func (c *Ctx) sliceRemaining(fn *ssa.Function, s *ssa.Slice, tainted map[ssa.Value]bool, buf ssa.Value) {
+	if s.High == nil || !same(sliceRoot(s), buf) {
+		return
+	}
+	strip := func(v ssa.Value) ssa.Value {
+		for {
+			if cv, ok := v.(*ssa.Convert); ok {
+				v = cv.X
+				continue
+			}
+			return v
+		}
+	}
+	hi := ir.Resolve(s.High)
+	var t, lo ssa.Value
+	if tainted[hi] {
+		if bo, ok := hi.(*ssa.BinOp); ok && bo.Op == token.ADD {
+			switch {
+			case tainted[bo.Y] && !tainted[bo.X]:
+				t, lo = bo.Y, bo.X
+			case tainted[bo.X] && !tainted[bo.Y]:
+				t, lo = bo.X, bo.Y
+			}
+		} else {
+			t = hi
+		}
+	}
+	if t == nil {
+		return
+	}
+	if s.Low != nil && lo != nil && ir.Resolve(s.Low) != ir.Resolve(lo) {
+		return // not of the form X[lo:lo+t]
+	}
+	if s.Low != nil && lo == nil {
+		return
+	}
+	u := strip(t)
+	remaining := func(y ssa.Value) bool {
+		y = strip(ir.Resolve(y))
+		if lo == nil {
+			return isLenOf(y, s.X)
+		}
+		if bo, ok := y.(*ssa.BinOp); ok && bo.Op == token.SUB {
+			return isLenOf(bo.X, s.X) && ir.Resolve(bo.Y) == ir.Resolve(lo)
+		}
+		return false
+	}
+	ok := false
+	for _, f := range ir.Facts(s.Block()) {
+		cm, isCmp := f.Cmp()
+		if !isCmp {
+			continue
+		}
+		op, x, y := cm.Op, cm.X, cm.Y
+		match := func(v ssa.Value) bool { return v == t || v == u || strip(v) == u }
+		if !match(x) {
+			if !match(y) {
+				continue
+			}
+			x, y = y, x
+			op = ir.SwapOp(op)
+		}
+		if (op == token.LEQ || op == token.LSS) && remaining(y) {
+			ok = true
+		}
+	}
+	c.Decide("C16.R3", fn, "wire length bounded by what remains of the sliced input", s, ok,
+		"the length taken from the input is compared with something else than the remaining length of the slice it cuts (len(x)-offset): a record truncated by less than the header size passes the check, the decoder over-reads behind the input or panics")
 }
